@@ -18,11 +18,15 @@ CONSTANTS
   ReadNotCounted = FALSE
   SqueezedFits = TRUE
   ReopenClampsMap = FALSE
+  LiveSized = FALSE
+  Page = 1
+  PageBySkipCur = FALSE
+  PageFreshSnap = FALSE
   BatchMax = 1
-  MaxOps = 7
+  MaxOps = 6
   WithReads = FALSE
   Stride = 1
   Offset = 0
 VIEW View
-INVARIANTS TypeOK ShadowAgrees LookupTopDown NoMapFull WaiterOwnsNothing CountAgrees MarkAgrees NoRemapUnderTxn NoHolderParked GateLive
-PROPERTIES CommitAtomic ChildFolds DropNoTrace SnapStable ResizeStutter CrashDurable ResizeGate HeadroomKept
+INVARIANTS TypeOK ShadowAgrees LookupTopDown NoMapFull WaiterOwnsNothing CountAgrees MarkAgrees NoRemapUnderTxn NoHolderParked GateLive PageWalk
+PROPERTIES CommitAtomic ChildFolds DropNoTrace SnapStable ResizeStutter CrashDurable ResizeGate HeadroomKept IterInOrder
